@@ -61,7 +61,8 @@ MutAttrValue(e) == {[e EXCEPT !.attrs = PutA(@, k, w)] : k \in DOMAIN e.attrs, w
 MutDropAttr(e) == {[e EXCEPT !.attrs = DelA(@, k)] : k \in DOMAIN e.attrs}
 MutExtraAttr(e) == {[e EXCEPT !.attrs = PutA(@, "zzz", LL(1))]}
 MutTag(e) == {[e EXCEPT !.tags = @ \cup {<<<<122>>, w>>}] : w \in {LL(9), SS(<<115>>), Blue, BB(FALSE)}}
-MutAnc(e) == {[e EXCEPT !.anc = @ \cup {a}] : a \in {U2, D1, G1, O1, F1, Blue, Red, Ghost, ActUid("all"), ActUid("zap")}}
+\* (never the entity itself: a self-ancestor is a hierarchy cycle, rejected for reasons outside conformance - C04)
+MutAnc(e) == {[e EXCEPT !.anc = @ \cup {a}] : a \in {U2, D1, G1, O1, F1, Blue, Red, Ghost, ActUid("all"), ActUid("zap")} \ {e.uid}}
 MutUid(e) == {[e EXCEPT !.uid = u] : u \in {Ghost, Blue, EE("User", "u9"), ActUid("zap"), ActUid("view")}}
 Mutants(e) == MutAttrValue(e) \cup MutDropAttr(e) \cup MutExtraAttr(e) \cup MutTag(e) \cup MutAnc(e) \cup MutUid(e)
 \* a "mutant" may happen to conform (e.g. replacing a value by another good one): the label is computed, not assumed
